@@ -71,6 +71,29 @@ pub struct Scenario {
     pub text: String,
     /// each inner vec is one didChange notification (byte ranges on `text` as it evolves)
     pub edits: Vec<Vec<(usize, usize, String)>>,
+    /// afterwards: didChange notifications with raw LSP ranges (line, character, line,
+    /// character, text), which may overshoot lines and the document
+    pub raw: Vec<Vec<RawChange>>,
+}
+
+pub type RawChange = (u32, u32, u32, u32, String);
+
+/// the text after all edits of the scenario (raw ranges under the LSP position rules)
+fn final_text(sc: &Scenario) -> String {
+    let mut cur = sc.text.clone();
+    for b in &sc.edits {
+        for (a, e, r) in b {
+            cur.replace_range(*a..*e, r);
+        }
+    }
+    for b in &sc.raw {
+        for (l1, c1, l2, c2, t) in b {
+            if let Some(n) = lsptext::apply(&cur, &lsptext::Change { range: Some((*l1, *c1, *l2, *c2)), text: t.clone() }) {
+                cur = n;
+            }
+        }
+    }
+    cur
 }
 
 fn build_session(sc: &Scenario, reqs: &[Req]) -> (Session, Vec<i64>, String) {
@@ -87,6 +110,14 @@ fn build_session(sc: &Scenario, reqs: &[Req]) -> (Session, Vec<i64>, String) {
         }
         s.change(URI, Value::Array(evs));
     }
+    for batch in &sc.raw {
+        let evs: Vec<Value> = batch
+            .iter()
+            .map(|(l1, c1, l2, c2, t)| json!({"range": {"start": {"line": l1, "character": c1}, "end": {"line": l2, "character": c2}}, "text": t}))
+            .collect();
+        s.change(URI, Value::Array(evs));
+    }
+    let cur = final_text(sc);
     let ids = reqs.iter().map(|r| s.request(&r.method, r.params.clone())).collect();
     (s, ids, cur)
 }
@@ -108,14 +139,9 @@ fn doc_class(text: &str) -> &'static str {
 /// Runs the scenario; returns failures (one per failing request, isolated by re-running the
 /// failing requests one by one).
 pub fn eval_scenario(sc: &Scenario, formatting_matrix: bool, family: &str) -> (Vec<Failure>, u64) {
-    let _g = watch("C02", || json!({"text": sc.text, "edits": format!("{:?}", sc.edits)}).to_string());
+    let _g = watch("C02", || json!({"text": sc.text, "edits": format!("{:?} {:?}", sc.edits, sc.raw)}).to_string());
     // current text after the edits decides the probe positions
-    let mut cur = sc.text.clone();
-    for b in &sc.edits {
-        for (a, e, r) in b {
-            cur.replace_range(*a..*e, r);
-        }
-    }
+    let cur = final_text(sc);
     let reqs = all_requests(&cur, URI, formatting_matrix);
     let n = reqs.len() as u64;
     let (s, ids, _) = build_session(sc, &reqs);
@@ -137,7 +163,7 @@ pub fn eval_scenario(sc: &Scenario, formatting_matrix: bool, family: &str) -> (V
         let msg = o0.error.or(o0.frame_error).unwrap();
         fails.push(Failure {
             key: format!("analysis|{}", panic_site(&msg)),
-            case: json!({"text": sc.text, "edits": sc.edits, "request": Value::Null, "family": family}),
+            case: json!({"text": sc.text, "edits": sc.edits, "raw_changes": sc.raw, "request": Value::Null, "family": family}),
             detail: msg,
         });
         return (fails, n);
@@ -157,7 +183,7 @@ pub fn eval_scenario(sc: &Scenario, formatting_matrix: bool, family: &str) -> (V
                 .unwrap_or_else(|| format!("no well-formed result response: {:?}", resp1.get(&ids1[0])));
             fails.push(Failure {
                 key: format!("{}|{}|{}", r.method.trim_start_matches("textDocument/"), panic_site(&msg), doc_class(&sc.text)),
-                case: json!({"text": sc.text, "edits": sc.edits, "request": {"method": r.method, "params": r.params}, "family": family}),
+                case: json!({"text": sc.text, "edits": sc.edits, "raw_changes": sc.raw, "request": {"method": r.method, "params": r.params}, "family": family}),
                 detail: msg,
             });
             if fails.len() >= 40 {
@@ -168,7 +194,7 @@ pub fn eval_scenario(sc: &Scenario, formatting_matrix: bool, family: &str) -> (V
     if fails.is_empty() {
         fails.push(Failure {
             key: "only-in-combination".into(),
-            case: json!({"text": sc.text, "edits": sc.edits, "family": family}),
+            case: json!({"text": sc.text, "edits": sc.edits, "raw_changes": sc.raw, "family": family}),
             detail: format!("session with all requests failed ({:?} {:?}) but every request alone succeeds", o.error, o.frame_error),
         });
     }
@@ -195,7 +221,7 @@ pub fn run(tier: Tier) -> Report {
         fams.push(json!({"family": name, "documents": scs.len(), "failing_requests": f.len()}));
         fails.extend(f.into_iter().take(MAX_KEPT_FAILURES));
     };
-    let plain = |t: String| Scenario { text: t, edits: vec![] };
+    let plain = |t: String| Scenario { text: t, edits: vec![], raw: vec![] };
 
     // token soups
     let toks = Strings::new(SIGMA_TOK, tier.pick(3, 4));
@@ -280,7 +306,7 @@ pub fn run(tier: Tier) -> Report {
         for (bi, &s) in b.iter().enumerate().step_by(tier.pick(2, 1)) {
             for &e in b[bi..].iter().step_by(tier.pick(3, 1)) {
                 for r in &repl {
-                    scs.push(Scenario { text: t.clone(), edits: vec![vec![(s, e, r.to_string())]] });
+                    scs.push(Scenario { text: t.clone(), edits: vec![vec![(s, e, r.to_string())]], raw: vec![] });
                 }
             }
         }
@@ -292,9 +318,27 @@ pub fn run(tier: Tier) -> Report {
         edits.push(vec![(i, i, c.to_string())]);
     }
     for k in 0..edits.len() {
-        scs.push(Scenario { text: String::new(), edits: edits[..=k].to_vec() });
+        scs.push(Scenario { text: String::new(), edits: edits[..=k].to_vec(), raw: vec![] });
     }
     run_family("edit-histories", scs, false, &mut fails);
+    // edits with raw LSP ranges: every pair of positions of a small grid that overshoots the
+    // lines and the document (a column behind the end of a line is the end of that line), on
+    // documents with every kind of line end, also two in one notification
+    let mut scs = vec![];
+    let raw_texts = ["", "a\rb\nc\r\nd", "ab\rcd\r", "\u{e9}\r\u{1f600}x\r\ny", "proc main() {\r  i := 1;\r}\r", "a\n\nb"];
+    for t in raw_texts {
+        let nl = lsptext::lines(t).len() as u32;
+        let grid: Vec<(u32, u32)> = (0..=nl + 1).flat_map(|l| [0u32, 1, 2, 3, 99].into_iter().map(move |c| (l, c))).collect();
+        for (i, a) in grid.iter().enumerate() {
+            for b in grid.iter().skip(i).step_by(tier.pick(2, 1)) {
+                for r in ["", "x\r"] {
+                    scs.push(Scenario { text: t.to_string(), edits: vec![], raw: vec![vec![(a.0, a.1, b.0, b.1, r.to_string())]] });
+                }
+                scs.push(Scenario { text: t.to_string(), edits: vec![], raw: vec![vec![(a.0, a.1, b.0, b.1, "\n".to_string()), (b.0, b.1, b.0 + 1, 0, String::new())]] });
+            }
+        }
+    }
+    run_family("raw-range-edits", scs, false, &mut fails);
 
     // process level: the same sessions against the release binary (real stdio, real worker
     // stacks of 2 MiB): nesting ladders and a fixed sub-family of the documents above; the
@@ -349,7 +393,7 @@ pub fn run(tier: Tier) -> Report {
             } else {
                 None
             };
-            bad.map(|d| Failure { key: "process:binary-session".into(), case: json!({"text": sc.text, "edits": sc.edits, "mode": "process"}), detail: d })
+            bad.map(|d| Failure { key: "process:binary-session".into(), case: json!({"text": sc.text, "edits": sc.edits, "raw_changes": sc.raw, "mode": "process"}), detail: d })
         })
         .collect();
     fams.push(json!({"family": "binary-conformance", "documents": proc_docs.len(), "failing": proc_fails.len()}));
@@ -375,7 +419,8 @@ pub fn run(tier: Tier) -> Report {
 pub fn replay(case: &Value) -> Vec<Failure> {
     let text = case["text"].as_str().unwrap_or("").to_string();
     let edits: Vec<Vec<(usize, usize, String)>> = serde_json::from_value(case["edits"].clone()).unwrap_or_default();
-    let sc = Scenario { text, edits };
+    let raw: Vec<Vec<RawChange>> = serde_json::from_value(case["raw_changes"].clone()).unwrap_or_default();
+    let sc = Scenario { text, edits, raw };
     if case["request"].is_object() {
         let r = Req { method: case["request"]["method"].as_str().unwrap().to_string(), params: case["request"]["params"].clone() };
         let (s, ids, _) = build_session(&sc, std::slice::from_ref(&r));
